@@ -6,6 +6,8 @@ import (
 	"bytes"
 	"fmt"
 	"math/rand"
+	"net/http"
+	"net/http/httptest"
 	"os"
 	"runtime"
 	"sync"
@@ -22,6 +24,23 @@ import (
 // (The exported getters that read loop state directly -- known findings of kind 2001 -- are left out:
 // a race on a Go map aborts the whole process.)
 // in = [goroutines calls seed]   obs = [all calls returned, calls made > 0]
+// a tracker that answers every announce at once with a peer: announce responses then reach the event
+// loops all the time, also while they are busy serving API calls
+var (
+	stressTrackerOnce sync.Once
+	stressTrackerURL  string
+)
+
+func stressTracker() string {
+	stressTrackerOnce.Do(func() {
+		srv := httptest.NewServer(http.HandlerFunc(func(w http.ResponseWriter, r *http.Request) {
+			_, _ = w.Write([]byte("d8:intervali1e12:min intervali1e5:peers6:\x7f\x00\x00\x63\x00\x01e"))
+		}))
+		stressTrackerURL = srv.URL + "/announce"
+	})
+	return stressTrackerURL
+}
+
 func genAPIStress(r *rand.Rand, tier string) Case {
 	dir, err := os.MkdirTemp("/verif/.work", "stress")
 	if err != nil {
@@ -48,7 +67,7 @@ func genAPIStress(r *rand.Rand, tier string) Case {
 	for k := 0; k < 3; k++ {
 		l := vLayout{PL: 16384, Lens: []int64{int64(40000 + k)}, Pads: []bool{false}, Name: fmt.Sprintf("s%d", k), Total: int64(40000 + k)}
 		content := l.Content(int64(k) + 1)
-		files = append(files, torrent.BuildTorrentFileWithTrackers(l.InfoBytes(content, -1), nil, [][]string{{"http://127.0.0.1:1/announce"}}))
+		files = append(files, torrent.BuildTorrentFileWithTrackers(l.InfoBytes(content, -1), nil, [][]string{{"http://127.0.0.1:1/announce"}, {stressTracker()}}))
 	}
 	var tors []*torrent.Torrent
 	for k := 0; k < 2; k++ {
@@ -91,7 +110,11 @@ func genAPIStress(r *rand.Rand, tier string) Case {
 				case 5:
 					_ = t.AddPeer("localhost:6881")
 				case 6:
-					_ = t.AddTracker(fmt.Sprintf("http://127.0.0.1:%d/a", 1+rr.Intn(5)))
+					if rr.Intn(2) == 0 {
+						_ = t.AddTracker(fmt.Sprintf("%s?k=%d", stressTracker(), rr.Intn(4)))
+					} else {
+						_ = t.AddTracker(fmt.Sprintf("http://127.0.0.1:%d/a", 1+rr.Intn(5)))
+					}
 				case 7:
 					_ = t.Start()
 				case 8:
